@@ -9,7 +9,7 @@ from lib import emusrv, catalog, pv
 from lib.emusrv import Ev, Fin, i32, i64, u32
 from lib.explore import ServerPool, Explorer, Ref, short_hist, binding_cases, bind_shallow
 from checks.threadcpu import Layout, TcRef, build_graph, ACTIVE
-from checks.c08 import PrefixPool
+from checks.c08 import PrefixPool, PrefixRefused, report_prefix
 
 ANY, RUN, ACT = "ANY", "RUN", "ACT"
 RESTING = 101
@@ -290,7 +290,11 @@ def run(prop, tier):
                 prefix = [Ev(hs, "OHx", i32(hidx, 103) + i64(0))]
                 for (mcv, payload, jumbo) in (g.helper_prefix or []):
                     prefix.append(Ev(hs, mcv, b"", 1, payload) if jumbo else Ev(hs, mcv, payload))
-                pp = PrefixPool(pool, prefix)
+                try:
+                    pp = PrefixPool(pool, prefix)
+                except PrefixRefused as e:
+                    report_prefix(ctx, e, "group " + g.name, pool.flags, spec)
+                    continue
                 tc = TcRef(layout, (mstates, E), sidx, finish=False, dts=(1,))
                 # drop the non-existent-CPU probes (C04/C05 cover them) to keep the alphabet small
                 tc._alpha = [(l, e) for (l, e) in tc.alphabet(None) if "?7" not in l]
